@@ -639,6 +639,82 @@ func C12(run *core.Run) {
 			}
 		}
 	}
+	// 4b. media type parameters that the minifier itself reads: every entry point must hand them on
+	for ii, body := range []string{"color : #ff0000 ; margin : 0px 0px", "background : url( 'a.png' ) ; font-weight : bold", "fill : red"} {
+		in := c12Input{mt: "text/css;inline=1", name: fmt.Sprintf("inlinecss#%d", ii), data: []byte(body)}
+		for _, ct := range []string{"text/css;inline=1", "text/css; inline=1", "TEXT/CSS ; inline=1 ; charset=utf-8"} {
+			for _, mw := range []string{"ResponseWriter", "Middleware", "MiddlewareWithError"} {
+				for flags := 0; flags < 4; flags++ {
+					c := c12HTTPCase{target: "/x", contentType: ct, setLength: flags&1 != 0, callWriteHeader: flags&2 != 0, chunks: 1 + flags%3, mw: mw, in: in}
+					run.Eval()
+					httpCases++
+					if s := c12RunHTTP(m, c); s != "" {
+						run.Violation(core.Key(c.String(), in.data), c.String()+": "+s, map[string]interface{}{"case": c.String(), "input": body})
+					} else {
+						run.NonTrivial([]byte(c.String()))
+					}
+				}
+			}
+			for _, entry := range []string{"reader", "writer", "bytes", "string"} {
+				run.Eval()
+				ref, rerr, _ := minifyBytes(m, ct, []byte(body))
+				var got []byte
+				var gerr error
+				switch entry {
+				case "reader":
+					got, gerr = io.ReadAll(m.Reader(ct, strings.NewReader(body)))
+				case "writer":
+					var b bytes.Buffer
+					w := m.Writer(ct, &b)
+					w.Write([]byte(body))
+					gerr = w.Close()
+					got = b.Bytes()
+				case "bytes":
+					got, gerr = m.Bytes(ct, []byte(body))
+				default:
+					var str string
+					str, gerr = m.String(ct, body)
+					got = []byte(str)
+				}
+				if (gerr == nil) != (rerr == nil) || (rerr == nil && !bytes.Equal(got, ref)) {
+					cfg := fmt.Sprintf("%s via %s", ct, entry)
+					run.Violation(core.Key(cfg, []byte(body)), fmt.Sprintf("%s: got %q (%v), the plain call gives %q (%v)", cfg, got, gerr, ref, rerr), map[string]interface{}{"case": cfg, "input": body})
+				} else {
+					run.NonTrivial([]byte(ct + entry + body))
+				}
+			}
+		}
+	}
+	// 4c. results stay what they were: slices and strings returned earlier are compared again after later calls
+	{
+		type held struct {
+			name string
+			got  []byte
+			want []byte
+		}
+		var hs []held
+		for round := 0; round < 2; round++ {
+			for _, in := range shorts {
+				run.Eval()
+				b, err := m.Bytes(in.mt, append([]byte{}, in.data...))
+				if err != nil {
+					continue
+				}
+				ref, _, _ := minifyBytes(newM(nil), in.mt, in.data)
+				hs = append(hs, held{in.name, b, append([]byte{}, ref...)})
+				if s, err := m.String(in.mt, string(in.data)); err == nil {
+					hs = append(hs, held{in.name + " (String)", []byte(s), append([]byte{}, ref...)})
+				}
+			}
+		}
+		for _, h := range hs {
+			if !bytes.Equal(h.got, h.want) {
+				run.Violation(core.Key("held-result", []byte(h.name)), fmt.Sprintf("the result returned for %s changed after later calls: now %q, was %q", h.name, core.Trunc(string(h.got), 80), core.Trunc(string(h.want), 80)), map[string]interface{}{"case": "held-result", "input": h.name})
+				break
+			}
+		}
+		run.Set("held_results_rechecked", len(hs))
+	}
 	// 5. race detector child
 	races, raceLog, err := runRaceChild("c12race")
 	run.Set("race_child_reports", races)
